@@ -109,6 +109,13 @@ class Fn:
                 return "bool"
             if e[2] in ("copied", "cloned", "clone", "collect", "to_string_lossy", "chain", "iter", "ok", "to_string", "to_owned"):
                 return self.ty(e[1], env)
+            if e[2] == "map_or_else" and len(e[3]) == 2 and e[3][0][0] == "path" and "::".join(e[3][0][1]) in self.calls:
+                return self.calls["::".join(e[3][0][1])][1]
+            if e[2] == "unwrap_or_else":
+                m = re.match(r"Option<(.*)>$", self.ty(e[1], env) or "")
+                return m.group(1) if m else None
+            if e[2] in ("as_ref",):
+                return self.ty(e[1], env)
             if e[2] == "map" and len(e[3]) == 1 and e[3][0][0] == "closure" and len(e[3][0][1]) == 1:
                 m = re.match(r"Option<(.*)>$", self.ty(e[1], env) or "")
                 if m:
@@ -394,6 +401,15 @@ class Fn:
                 env2 = dict(env, **add)
                 dflt = "false" if name == "is_some_and" else self.ex(args[0], env)
                 return "(match %s with Some %s => %s | None => %s end)" % (self.ex(recv, env), paren(ps), self.ex(clo[2], env2), dflt)
+            if name == "map_or_else" and len(args) == 2 and args[1][0] == "closure" and len(args[1][1]) == 1 and args[0][0] == "path" \
+                    and re.match(r"Option<(.*)>$", self.ty(recv, env) or "") and "::".join(args[0][1]) in self.calls:
+                m = re.match(r"Option<(.*)>$", self.ty(recv, env))
+                ps, add = self.pat(args[1][1][0], env, m.group(1))
+                return "(match %s with Some %s => %s | None => %s end)" % (self.ex(recv, env), paren(ps), self.ex(args[1][2], dict(env, **add)),
+                                                                          self.apply(self.calls["::".join(args[0][1])][0], []))
+            if name == "unwrap_or_else" and len(args) == 1 and args[0][0] == "closure" and not args[0][1] and re.match(r"Option<(.*)>$", self.ty(recv, env) or ""):
+                v = self.fresh("v")
+                return "(match %s with Some %s => %s | None => %s end)" % (self.ex(recv, env), v, v, self.ex(args[0][2], env))
             if name == "map" and len(args) == 1 and args[0][0] == "closure" and re.match(r"Option<(.*)>$", self.ty(recv, env) or ""):
                 clo = args[0]
                 if len(clo[1]) != 1:
@@ -690,6 +706,10 @@ class Fn:
                 if n and n[0] == "mcall" and n[1][0] == "path" and len(n[1][1]) == 1 and (n[1][1][0] + "." + n[2]) in self.spec.get("state_calls", {}):
                     if self.spec["state"] not in out:
                         out.append(self.spec["state"])
+                if n and n[0] == "call" and len(n) == 3 and n[1][0] == "path" and "::".join(n[1][1]) in self.spec.get("state_fn_calls", {}):
+                    for bv in self.spec["state_fn_calls"]["::".join(n[1][1])][1]:
+                        if bv not in out:
+                            out.append(bv)
                 if n and n[0] == "mcall" and n[1][0] == "path" and len(n[1][1]) == 1 and (n[1][1][0] + "." + n[2]) in self.spec.get("updates", {}):
                     if n[1][1][0] not in out:
                         out.append(n[1][1][0])
@@ -731,6 +751,69 @@ class Fn:
             if not ok_:
                 raise Unsupported("statement under #[%s]" % s[1])
             return after(env)
+        def print_only(n):
+            """a statement whose only effect is text on stdout/stderr"""
+            if n[0] == "expr" and n[1][0] == "macro" and n[1][1] in ("println", "eprintln"):
+                return True
+            if n[0] == "for" and n[3][2] is None and all(print_only(x) for x in n[3][1]):
+                return True
+            if n[0] == "expr" and n[1][0] == "if" and n[1][2][2] is None and all(print_only(x) for x in n[1][2][1]) \
+                    and (n[1][3] is None or (n[1][3][0] == "block" and n[1][3][2] is None and all(print_only(x) for x in n[1][3][1]))):
+                return True
+            return False
+        if self.spec.get("prints_ignored") and k in ("for", "expr") and print_only(s) and not (k == "expr" and s[1][0] == "macro"):
+            # `for x in list { println!(.. x ..) }` on stdout is recorded as "the list was printed" when the spec asks for it
+            pr = self.spec.get("printed_var")
+            if k == "for" and pr and len(s[3][1]) == 1 and s[3][1][0][1][1] == "println":
+                names = set()
+                def pv(q):
+                    if q[0] == "pbind":
+                        names.add(q[1])
+                    elif q[0] == "ptuple":
+                        for z in q[1]:
+                            pv(z)
+                pv(s[1])
+                toks = " ".join(str(t[1]) for t in s[3][1][0][1][2])
+                if not all(re.search(r"\b%s\b" % re.escape(nm), toks) for nm in names):
+                    raise Unsupported("a printing loop does not print every component of its element")
+                return "let %s := %s ++ %s in %s" % (pr, pr, self.ex(s[2], env), after(env))
+            return after(env)
+        if k == "let" and s[1][0] == "pbind" and s[1][1] in self.spec.get("print_only_lets", ()):
+            def uses(n):
+                if isinstance(n, tuple):
+                    if len(n) == 2 and n[0] == "path" and list(n[1]) == [s[1][1]]:
+                        return True
+                    return any(uses(x) for x in n)
+                if isinstance(n, list):
+                    return any(uses(x) for x in n)
+                return False
+            if uses(rest) or (tl is not None and uses(tl)):
+                raise Unsupported("`%s` is no longer used by messages only" % s[1][1])
+            return after(env)
+        if k == "expr" and self.spec.get("state_fn_calls"):
+            e7 = s[1]
+            tried = False
+            while e7[0] == "try":
+                e7, tried = e7[1], True
+            if e7[0] == "call" and e7[1][0] == "path" and "::".join(e7[1][1]) in self.spec["state_fn_calls"]:
+                tmpl, binds, failed, errv = self.spec["state_fn_calls"]["::".join(e7[1][1])]
+                if not tried:
+                    raise Unsupported("the result of %s is no longer propagated with `?`" % "::".join(e7[1][1]))
+                call = self.apply(tmpl, [self.ex(a, env) for a in e7[2]])
+                return "let '(%s) := %s in if %s then %s else %s" % (", ".join(binds), call, failed, ctx.ret(errv), paren(after(env)))
+        if k == "assign" and s[1][0] == "field" and s[1][1][0] == "path" and len(s[1][1][1]) == 1:
+            key = (env.get(s[1][1][1][0]), s[1][2])
+            if key in self.spec.get("ignored_field_assigns", ()):
+                return after(env)
+            if key in self.spec.get("field_is_self", ()) and s[2] == "=":
+                return "let %s := %s in %s" % (self.var(s[1][1][1][0]), self.ex(s[3], env), after(env))
+        if k == "expr" and self.spec.get("effects_set"):
+            e8 = s[1]
+            while e8[0] == "try":
+                e8 = e8[1]
+            if e8[0] == "mcall" and e8[1][0] == "path" and len(e8[1][1]) == 1 and (e8[1][1][0] + "." + e8[2]) in self.spec["effects_set"]:
+                var, tmpl = self.spec["effects_set"][e8[1][1][0] + "." + e8[2]]
+                return "let %s := %s in %s" % (var, self.apply(tmpl, [self.var(e8[1][1][0])] + [self.ex(a, env) for a in e8[3]]), after(env))
         if k == "let" and s[1][0] == "pbind" and s[3] is not None and s[3][0] == "repeat" and s[3][1] == ("num", 0) and s[3][2][0] == "num" and self.spec.get("read_exact"):
             # `let mut m = [0u8; N];` - a buffer that a following `r.read_exact(&mut m)?` fills
             self.buffers[s[1][1]] = s[3][2][1]
@@ -767,7 +850,7 @@ class Fn:
         if su is not None and su[0] == "mcall" and su[1][0] == "path" and len(su[1][1]) == 1 and (su[1][1][0] + "." + su[2]) in self.spec.get("updates", {}):
             v = su[1][1][0]
             tmpl = self.spec["updates"][v + "." + su[2]]
-            return "let %s := %s in %s" % (self.var(v), self.apply(tmpl, [self.var(v)] + [self.ex(a, env) for a in su[3]]), after(env))
+            return "let %s := %s in %s" % (self.var(v), self.apply(tmpl, [self.var(v)] + [self.ex(a, env) for a in su[3] if a[0] != "closure"]), after(env))
         # `obj.check()?;` where a failure leaves the function with a fixed value
         if su is not None and s[1][0] == "try" and su[0] == "mcall" and ("." + su[2]) in self.spec.get("try_checks", {}):
             tmpl, errv = self.spec["try_checks"]["." + su[2]]
@@ -1620,6 +1703,40 @@ def functions():
     out.append(("delta", "src/sync.rs CopiaSync::delta", None, t_delta("src/sync.rs", "Sync for CopiaSync", "g_delta", "CopiaSync")))
     out.append(("async_delta", "src/async_sync.rs AsyncCopiaSync::delta", None, t_delta("src/async_sync.rs", "AsyncCopiaSync", "g_async_delta", "AsyncCopiaSync")))
 
+    RETAIN_CLOSURE = "{ common.retain(|p, _| a.contains_key(p) || b.contains_key(p)); }"
+
+    def t_run_bisync():
+        src = read("src/bin/copia/bidir.rs")
+        params, ret, body = R.find_fn(src, "run_bisync", None)
+        norm = lambda x: json.loads(json.dumps(x))
+        want = R.Parser(R.tokenize(RETAIN_CLOSURE)).block()[1][0]
+        n_ret = [st for st in body[1] if st[0] == "expr" and st[1][0] == "mcall" and st[1][2] == "retain"]
+        if len(n_ret) != 1 or norm(n_ret[0]) != norm(want):
+            raise Unsupported("run_bisync: the base is no longer pruned by `common.retain(|p, _| a.contains_key(p) || b.contains_key(p));`")
+        if [n for n, _ in params] != ["root_a", "root_b", "opts"]:
+            raise Unsupported("signature of run_bisync is %s" % params)
+        spec = dict(try_transparent=True, prints_ignored=True, printed_var="printed", print_only_lets=("conflicts",),
+                    rename={"root_a": "SA", "root_b": "SB"},
+                    fields={("BidirOptions", "dry_run"): ("dry_run (* {0} *)", "bool"), ("BidirOptions", "verbose"): ("verbose (* {0} *)", "bool"),
+                            ("Archive", "entries"): ("{0}", "FpMap")},
+                    calls={"discover_local_fingerprints": ("scan_of s {0}", "FpMap"), "root_pair_hash": ("tt (* {0} {1} *)", "String"),
+                           "archive_path": ("tt (* {0} *)", "PathBuf"), "Archive::load": ("arch s (* {0} {1} *)", "Option<Archive>"),
+                           "FpMap::new": ("(∅ : gmap K D)", "FpMap"), "reconcile": ("plan_tb {0} {1} {2} {3}", "Vec<(PathBuf,Action)>"),
+                           "host_id": ("tt", "String"), "Vec::new": ("[]", "Vec<PathBuf>"),
+                           "Archive::fresh": ("(∅ : gmap K D) (* {0} {1} *)", "Archive")},
+                    updates={"common.retain": "prune {0} a b"},
+                    state_fn_calls={"apply": ("apply_st a b w common conflict_paths {2} {3}", ["w", "common", "conflict_paths"], "failed w",
+                                              "(w, saved, printed, GIoErr)")},
+                    ignored_field_assigns=(("Archive", "epoch"), ("Archive", "host_id")), field_is_self=(("Archive", "entries"),),
+                    effects_set={"arc.save": ("saved", "Some {0} (* {1} *)")},
+                    ok=lambda s_: "(w, saved, printed, GOk)", errs=[(r"had conflicts", "(w, saved, printed, GConflicts)")],
+                    prologue="let w := w_of s in let saved := None in let printed := [] in ")
+        fn = Fn(spec)
+        env = {"root_a": "Path", "root_b": "Path", "opts": "BidirOptions"}
+        text = spec["prologue"] + fn.block(body, env, Ctx(val=(lambda x: x), ret=(lambda x: x), fall=None))
+        return ("Definition g_run_bisync (s : state) (dry_run verbose : bool) : fs * option (gmap K D) * list (K * action) * gres :=\n  %s." % text)
+    out.append(("run_bisync", "src/bin/copia/bidir.rs run_bisync", None, t_run_bisync))
+
     def t_safe_join():
         src = read("src/bin/copia/serve.rs")
         spec = dict(signature=[("root", "Path"), ("rel", "str")],
@@ -1646,6 +1763,7 @@ GROUPS = {
     "WireFrame": ("Model.Wire", "wireframe", ["read_frame"]),
     "BisyncApply": ("", "bisync", ["apply"]),
     "HubDelete": ("", "hubseq", ["handle_delete", "handle_put"]),
+    "BisyncRun": ("", "bisyncrun", ["run_bisync"]),
     "HubSync": ("", "hubsync", ["hub_sync"]),
     "BisyncSys": ("", "bisyncsys", ["copy_atomic"]),
     "ArchiveSave": ("Model.ArchiveSys", "archivesys", ["archive_save"]),
@@ -1732,6 +1850,26 @@ def main():
                      "(* what one call of read_frame does to the input: the clean end, an oversize prefix (nothing reserved), a short or\n   undecodable payload (after reserving [alloc] bytes), or a request; [rest] = the input left *)\n"
                      "Inductive fres := FEnd (rest : list Z) | FTooBig (rest : list Z) | FShort (alloc : Z) (rest : list Z) | FBad (alloc : Z) (rest : list Z)\n"
                      "                | FOk (alloc : Z) (rq : request) (rest : list Z).\n\n" + "\n".join(texts) + "End WithDecoder.\n")
+        elif digest == "bisyncrun":
+            body = ("(** GENERATED by tools/gen_logic.py from /repo's CURRENT source - do not edit.\n    bidir.rs `run_bisync` as a function of the two trees and the recorded state (Model/Bisync.v [state]): the result is\n"
+                    "    the two trees with the I/O error flag, what was SAVED as the new recorded state (None = nothing saved), what a\n"
+                    "    dry run printed on stdout, and the exit status.  `apply(..)?` is Model/Bisync.v [apply] (tied to the source of\n"
+                    "    `apply` by Proofs/TieBisyncApply.v) on the file systems [w], the common map and the conflict list. *)\n"
+                    "From stdpp Require Import gmap.\nFrom Copia Require Import Model.LoopLib Model.Bisync.\n\n"
+                    "Section WithBisync.\nContext `{Countable K} {D : Type} `{EqDecision D}.\nVariable Hh : list Z -> D.\nVariable kle : K -> K -> bool.\n"
+                    "Variable dge : D -> D -> bool.\nVariable cname : K -> D -> K.\n"
+                    "Notation state := (@Bisync.state K _ _ D).\nNotation action := Bisync.action.\n"
+                    "Inductive side := SA | SB.\nInductive gres := GOk | GConflicts | GIoErr.\n"
+                    "(* the two file systems and whether an I/O error has occurred *)\n"
+                    "Definition fs : Type := gmap K (list Z) * gmap K (list Z) * bool.\n"
+                    "Definition w_of (s : state) : fs := (tA s, tB s, false).\nDefinition failed (w : fs) : bool := snd w.\n"
+                    "Definition scan_of (s : state) (sd : side) : gmap K D := match sd with SA => scan Hh (tA s) | SB => scan Hh (tB s) end.\n"
+                    "Definition plan_tb (a b base : gmap K D) (trust : bool) : list (K * action) := plan kle a b (if trust then Some base else None).\n"
+                    "(* conflict_paths is only ever counted: one [tt] per conflicted path *)\n"
+                    "Definition apply_st (a b : gmap K D) (w : fs) (common : gmap K D) (conf : list unit) (p : K) (act : action) : fs * gmap K D * list unit :=\n"
+                    "  let w' := Bisync.apply dge cname a b {| wA := fst (fst w); wB := snd (fst w); wC := common; wConf := length conf; wErr := snd w |} (p, act) in\n"
+                    "  ((wA w', wB w', wErr w'), wC w', repeat tt (wConf w')).\n\n"
+                    + "\n".join(texts) + "End WithBisync.\n")
         elif digest == "archivesys":
             body = (HEADER % (group, imports)) + "\nSection WithFs.\nVariable path_exists : apath -> bool.   (* path.exists() *)\n\n" + "\n".join(texts) + "End WithFs.\n"
         elif digest == "onewaysys":
